@@ -196,20 +196,47 @@ fn gates() -> &'static Arc<Gates> {
 
 /// what the caller thread does inside the i-th `store_distances_enqueued` hook (1-based)
 struct Plan {
-    after_enq: Vec<Vec<u64>>,
+    after_enq: Vec<Vec<(char, u64)>>,
 }
 
-fn exec_worker(k: u64) -> Result<(), String> {
+/// worker k takes its next command, computes and sends the ok chunk; it is then parked between its two sends
+fn exec_ok(k: u64) -> Result<(), String> {
     let g = gates();
-    let done = g.count(("dist_end", k));
     if !g.wait_parked(("dist", k), STEP_TIMEOUT) {
         return Err(format!("worker {} never received the expected command", k));
     }
     g.grant(("dist", k));
+    if !g.wait_parked(("mid", k), STEP_TIMEOUT) {
+        return Err(format!("worker {} did not reach the point between its two sends", k));
+    }
+    Ok(())
+}
+
+/// worker k sends its pending err chunk and finishes the command
+fn exec_err(k: u64) -> Result<(), String> {
+    let g = gates();
+    let done = g.count(("dist_end", k));
+    if !g.wait_parked(("mid", k), STEP_TIMEOUT) {
+        return Err(format!("worker {} is not between its two sends", k));
+    }
+    g.grant(("mid", k));
     if !g.wait_count(("dist_end", k), done + 1, STEP_TIMEOUT) {
         return Err(format!("worker {} did not finish its command", k));
     }
     Ok(())
+}
+
+fn exec_worker(k: u64) -> Result<(), String> {
+    exec_ok(k)?;
+    exec_err(k)
+}
+
+fn exec_op(op: &(char, u64)) -> Result<(), String> {
+    match op.0 {
+        'O' => exec_ok(op.1),
+        'F' => exec_err(op.1),
+        _ => exec_worker(op.1),
+    }
 }
 
 fn install_hook() {
@@ -218,6 +245,7 @@ fn install_hook() {
         g.log(site, arg);
         match site {
             "store_distances_begin" => g.arrive_and_wait(("dist", arg), "gate_passed"),
+            "store_distances_ok_sent" => g.arrive_and_wait(("mid", arg), "mid_passed"),
             "store_distances_end" => {
                 g.signal(("dist_end", arg));
             }
@@ -226,8 +254,8 @@ fn install_hook() {
                 let plan = PLAN.lock().unwrap().clone();
                 if let Some(plan) = plan {
                     if let Some(seg) = plan.after_enq.get(i - 1) {
-                        for k in seg {
-                            if let Err(e) = exec_worker(*k) {
+                        for op in seg {
+                            if let Err(e) = exec_op(op) {
                                 g.set_error(e);
                                 break;
                             }
@@ -271,20 +299,21 @@ fn run_case(c: &Case) {
     let g = gates();
     g.reset(c.gated);
     // split the schedule: segments after each E, and the post-return part
-    let mut after_enq: Vec<Vec<u64>> = vec![];
-    let mut post: Vec<u64> = vec![];
+    let mut after_enq: Vec<Vec<(char, u64)>> = vec![];
+    let mut post: Vec<(char, u64)> = vec![];
     let mut returned = false;
     for tok in &c.sched {
         if tok == "R" {
             returned = true;
-        } else if let Some(_k) = tok.strip_prefix('E') {
+        } else if tok.starts_with('E') {
             after_enq.push(vec![]);
-        } else if let Some(k) = tok.strip_prefix('X') {
-            let k: u64 = k.parse().unwrap();
+        } else {
+            let kind = tok.chars().next().unwrap(); // X = whole command, O = ok half, F = err half
+            let k: u64 = tok[1..].parse().unwrap();
             if returned || after_enq.is_empty() {
-                post.push(k);
+                post.push((kind, k));
             } else {
-                after_enq.last_mut().unwrap().push(k);
+                after_enq.last_mut().unwrap().push((kind, k));
             }
         }
     }
@@ -328,11 +357,11 @@ fn run_case(c: &Case) {
             (spawn_receivers.take().unwrap())();
         }
         if c.gated {
-            for k in &post {
+            for op in &post {
                 if g.take_error().is_some() {
                     break;
                 }
-                if let Err(e) = exec_worker(*k) {
+                if let Err(e) = exec_op(op) {
                     g.set_error(e);
                     break;
                 }
@@ -394,6 +423,8 @@ fn run_case(c: &Case) {
             let s = match e.site {
                 "store_distances_begin" => "b",
                 "gate_passed" => "g",
+                "store_distances_ok_sent" => "m",
+                "mid_passed" => "n",
                 "store_distances_end" => "e",
                 "store_distances_enqueued" => "q",
                 "owned_query_copied" => "c",
@@ -531,6 +562,98 @@ fn random_schedule(rng: &mut Rng, shards: usize, cands: usize) -> Vec<String> {
     out
 }
 
+/// fine-grained interleavings: a command is an ok half O<k> and an err half F<k>; worker k cannot start its next
+/// command before it has sent its pending err chunk
+fn all_schedules_fine(shards: usize, cands: usize) -> Vec<Vec<String>> {
+    fn go(i: usize, total: usize, shards: usize, q: &mut Vec<usize>, h: &mut Vec<bool>, r: bool, cur: &mut Vec<String>, out: &mut Vec<Vec<String>>) {
+        if i == total && r && q.iter().all(|x| *x == 0) && h.iter().all(|x| !*x) {
+            out.push(cur.clone());
+            return;
+        }
+        if i < total && !r {
+            let k = i % shards;
+            q[k] += 1;
+            cur.push(format!("E{}", k));
+            go(i + 1, total, shards, q, h, r, cur, out);
+            cur.pop();
+            q[k] -= 1;
+        }
+        for k in 0..shards {
+            if h[k] {
+                h[k] = false;
+                cur.push(format!("F{}", k));
+                go(i, total, shards, q, h, r, cur, out);
+                cur.pop();
+                h[k] = true;
+            } else if q[k] > 0 {
+                q[k] -= 1;
+                h[k] = true;
+                cur.push(format!("O{}", k));
+                go(i, total, shards, q, h, r, cur, out);
+                cur.pop();
+                h[k] = false;
+                q[k] += 1;
+            }
+        }
+        if i == total && !r {
+            cur.push("R".into());
+            go(i, total, shards, q, h, true, cur, out);
+            cur.pop();
+        }
+    }
+    let mut out = vec![];
+    go(0, shards * cands, shards, &mut vec![0; shards], &mut vec![false; shards], false, &mut vec![], &mut out);
+    out
+}
+
+fn random_schedule_fine(rng: &mut Rng, shards: usize, cands: usize) -> Vec<String> {
+    let total = shards * cands;
+    let mut q = vec![0usize; shards];
+    let mut h = vec![false; shards];
+    let mut i = 0;
+    let mut r = false;
+    let mut out = vec![];
+    loop {
+        let mut opts: Vec<String> = vec![];
+        if i < total && !r {
+            opts.push("E".into());
+        }
+        for k in 0..shards {
+            if h[k] {
+                opts.push(format!("F{}", k));
+            } else if q[k] > 0 {
+                opts.push(format!("O{}", k));
+            }
+        }
+        if i == total && !r {
+            opts.push("R".into());
+        }
+        if opts.is_empty() {
+            break;
+        }
+        let o = rng.pick(&opts).clone();
+        if o == "E" {
+            let k = i % shards;
+            q[k] += 1;
+            i += 1;
+            out.push(format!("E{}", k));
+        } else if o == "R" {
+            r = true;
+            out.push(o);
+        } else {
+            let k: usize = o[1..].parse().unwrap();
+            if o.starts_with('O') {
+                q[k] -= 1;
+                h[k] = true;
+            } else {
+                h[k] = false;
+            }
+            out.push(o);
+        }
+    }
+    out
+}
+
 fn owned_cand_count(store: &[TrackSpec], ids: &[u64]) -> usize {
     ids.iter().filter(|id| store.iter().any(|t| t.id == **id)).count()
 }
@@ -574,6 +697,22 @@ fn gen_c10(seed: u64, n: usize, tier: &str) {
             case.recv = ((j + si) % 3) as u8;
             run_case(&case);
         }
+        // the same scenario at the granularity of single sends (a worker parked between its ok and err send):
+        // every interleaving when there are at most 45 of them, a random sample otherwise
+        if shards * ccount <= 2 {
+            for (j, s) in all_schedules_fine(shards, ccount).iter().enumerate() {
+                case.sched = s.clone();
+                case.recv = ((j + si + 1) % 3) as u8;
+                run_case(&case);
+            }
+        } else {
+            let k = if thorough { 400 } else { 60 };
+            for j in 0..k {
+                case.sched = random_schedule_fine(&mut rng, shards, ccount);
+                case.recv = ((j + si) % 3) as u8;
+                run_case(&case);
+            }
+        }
     }
     // (b) larger, randomised: 1..4 shards, up to 4 candidates, random interleavings
     let big = if thorough { 40 * n } else { 6 * n };
@@ -600,7 +739,7 @@ fn gen_c10(seed: u64, n: usize, tier: &str) {
             }
             ccount = nc;
         }
-        case.sched = random_schedule(&mut rng, shards, ccount);
+        case.sched = if bi % 4 < 2 { random_schedule_fine(&mut rng, shards, ccount) } else { random_schedule(&mut rng, shards, ccount) };
         run_case(&case);
     }
     // (c) free running (no gates): large owned batches - every queried track must meet every other one
@@ -782,6 +921,7 @@ fn install_c05_hook() {
     similari::verif_hooks::set_hook(Some(Arc::new(move |site: &'static str, arg: u64| {
         match site {
             "store_distances_begin" => g.arrive_and_wait(("dist", arg), "gate_passed"),
+            "store_distances_ok_sent" => g.arrive_and_wait(("mid", arg), "mid_passed"),
             "store_distances_end" => {
                 g.signal(("dist_end", arg));
             }
